@@ -16,7 +16,13 @@ let oracle_c01 (line : string) : string =
         let (nl, nc, g) = parse_grid (field r "G") in
         let Node (ri, _) = t in
         if iz ri.w_rect.lines <> nl || iz ri.w_rect.cols <> nc then bad := Some (Printf.sprintf "record %d: root size differs from the screen" k)
-        else if not (c01_checkb !app t (zi nl) (zi nc) g) then bad := Some (Printf.sprintf "record %d: screen differs from compose" k)
+        else begin
+          let dmg = parse_rects (field r "D") in
+          let n = field r "N" in
+          if String.length n <> 3 then bad := Some "flags"
+          else if not (c01_pending_checkb !app t (zi nl) (zi nc) g dmg (n.[0] = '1') (n.[2] = '1')) then
+            bad := Some (Printf.sprintf "record %d: a cell outside the pending damage differs from compose, or damage is pending without needs_expose/later" k)
+        end
       end) recs;
   match !bad with None -> "OK" | Some m -> "BAD " ^ m
 
